@@ -123,6 +123,11 @@ func drawC09(t *rapid.T) c09Case {
 	c.OutOpt = rapid.SampledFrom([]string{"", "", "out", "x/y"}).Draw(t, "outOpt")
 	c.PkgOpt = rapid.IntRange(0, 3).Draw(t, "pkgOpt") == 0
 	c.File = rapid.SampledFrom([]string{"g.bnf", "g.bnf", "grammar.txt", "g"}).Draw(t, "fileName")
+	if rapid.IntRange(0, 7).Draw(t, "tail") == 0 {
+		// what a file may end in: a comment without a line break behind it, an
+		// unterminated comment or literal, a lone CR, NUL, half a UTF-8 sequence
+		c.Src = strings.TrimRight(c.Src, "\n") + rapid.SampledFrom([]string{"// c", " // é", "//", "/* c */", "/* c", "/*", "/", "\r", "\x00", "\xe4\xb8", "'", "\"", "`", "<<", "<< x", "!", "_", "\ufeff"}).Draw(t, "tailText")
+	}
 	if c.Arm != "C" && rapid.IntRange(0, 4).Draw(t, "regenerate") == 0 {
 		// the usual workflow: the output directory holds what an earlier run
 		// wrote (here: the same grammar with the debug flags on and the other
@@ -195,12 +200,10 @@ func c09RunOne(env *ex.Env, mod, name string, c c09Case) *c09Result {
 	r.res = env.Run(d, nil, args...)
 	if r.res.CPULimit {
 		// once more with doubled limits before it counts
-		old := ex.CPUSeconds
-		ex.CPUSeconds = 2 * old
-		r.res = env.Run(d, nil, args...)
-		ex.CPUSeconds = old
+		// (the limit is passed along, not changed globally: cases run in parallel)
+		r.res = env.RunCPU(d, nil, 2*ex.CPUSeconds, args...)
 		if r.res.CPULimit {
-			r.problem = fmt.Sprintf("gocc did not terminate within %d s of CPU time (signal %s)", 2*old, r.res.Signal)
+			r.problem = fmt.Sprintf("gocc did not terminate within %d s of CPU time (signal %s)", 2*ex.CPUSeconds, r.res.Signal)
 			return r
 		}
 	}
